@@ -1,5 +1,5 @@
 \* behaviour generation (TLC simulation): controller invocations serial, environment / restart at any call
-CONSTANTS Nodes = {"n1", "n2"}  Cmds = {"A", "B"}  MaxRepl = 2  T = 1  MaxNow = 2  MaxFaults = 2  MaxRestarts = 1
+CONSTANTS Nodes = {"n1", "n2", "n3"}  Cmds = {"A", "B"}  MaxRepl = 2  T = 1  MaxNow = 2  MaxFaults = 2  MaxRestarts = 1  MaxCandVanish = 1
           DelFaults = TRUE  CodeMode = "code"  Weak = "none"  Serial = TRUE  Gen = TRUE  MaxLen = 40
 SPECIFICATION Spec
 INVARIANTS GenPrint
